@@ -540,6 +540,72 @@ func verifC03Direct(w *bufio.Writer, r *verifC03Rng) {
 	}
 }
 
+// verifC03Reserialise: the serialiser clause over multi-step histories of ONE bundle value: it is built (or
+// parsed), serialised, then fields of its blocks are assigned directly — as the agents, the routing algorithms
+// and Core.forward do with bundles they hold — and it is serialised again. Every CRC written must be the CRC
+// of the bytes written in THAT serialisation.
+func verifC03Reserialise(w *bufio.Writer, r *verifC03Rng) {
+	ser := func(b *Bundle) []byte {
+		var buf bytes.Buffer
+		if err := b.MarshalCbor(&buf); err != nil {
+			return nil
+		}
+		return buf.Bytes()
+	}
+	emit := func(what string, enc []byte) {
+		if enc == nil {
+			fmt.Fprintf(w, "reser %s - error\n", what)
+			return
+		}
+		fmt.Fprintf(w, "reser %s %s %s\n", what, verifC03Hex(enc), verifC03Parse(enc))
+	}
+	muts := []struct {
+		name string
+		f    func(b *Bundle)
+	}{
+		{"primary-destination-assigned", func(b *Bundle) { b.PrimaryBlock.Destination = MustNewEndpointID("dtn://other-destination/x") }},
+		{"primary-report-to-assigned", func(b *Bundle) { b.PrimaryBlock.ReportTo = MustNewEndpointID("ipn:77.9") }},
+		{"primary-lifetime-assigned", func(b *Bundle) { b.PrimaryBlock.Lifetime = b.PrimaryBlock.Lifetime + 12345 }},
+		{"primary-flags-assigned", func(b *Bundle) { b.PrimaryBlock.BundleControlFlags |= MustNotFragmented }},
+		{"primary-sequence-number-assigned", func(b *Bundle) { b.PrimaryBlock.CreationTimestamp[1] += 7 }},
+		{"canonical-flags-assigned", func(b *Bundle) {
+			b.CanonicalBlocks[0].BlockControlFlags |= ReplicateBlock
+		}},
+		{"hop-count-incremented", func(b *Bundle) {
+			if cb, err := b.ExtensionBlock(ExtBlockTypeHopCountBlock); err == nil {
+				cb.Value.(*HopCountBlock).Increment()
+			}
+		}},
+	}
+	for _, ct := range []CRCType{CRC16, CRC32} {
+		for _, m := range muts {
+			mk := func() (Bundle, error) {
+				return Builder().CRC(ct).Source("dtn://s/").Destination("dtn://d/").ReportTo("dtn://s/r").
+					CreationTimestampTime(verifC03Time).Lifetime(verifC03Century).HopCountBlock(17).
+					PayloadBlock(r.bytes(1 + r.intn(20))).Build()
+			}
+			// built, serialised, assigned, serialised again
+			if b, err := mk(); err == nil {
+				_ = ser(&b)
+				m.f(&b)
+				emit(fmt.Sprintf("%s-after-serialising-crc%d", m.name, 16*int(ct)), ser(&b))
+			}
+			// built, assigned, serialised (no first serialisation)
+			if b, err := mk(); err == nil {
+				m.f(&b)
+				emit(fmt.Sprintf("%s-after-building-crc%d", m.name, 16*int(ct)), ser(&b))
+			}
+			// built, serialised, parsed, assigned, serialised again
+			if b, err := mk(); err == nil {
+				if p, err := ParseBundle(bytes.NewReader(ser(&b))); err == nil {
+					m.f(&p)
+					emit(fmt.Sprintf("%s-after-parsing-crc%d", m.name, 16*int(ct)), ser(&p))
+				}
+			}
+		}
+	}
+}
+
 func TestVerifC03(t *testing.T) {
 	outPath := os.Getenv("VERIF_OUT")
 	if outPath == "" {
@@ -618,6 +684,7 @@ func TestVerifC03(t *testing.T) {
 
 	verifC03Direct(w, r)
 	verifC03Adversarial(w, r)
+	verifC03Reserialise(w, r)
 
 	// (ii) generated bundles, all three CRC mixes
 	nBundles, maxPayload, perStart := 27, 60, 2
